@@ -244,16 +244,13 @@ Section Cover.
   Qed.
 
   Lemma visit_cov : forall fuel tn,
-    vspec (fun p => p = tn /\ tn <> []) (NCov tn)
+    vspec (fun _ => False) (NCov tn)
           (fun x c s => visit (n_children get) true fuel x tn c s).
   Proof.
     induction fuel as [|f IH]; intros tn n c s c' s' cs H Hcs Hs; simpl in H; [discriminate|].
-    set (s1 := match tn with [] => s | _ => add_seen tn s end) in *.
-    assert (M01 : incl (seen s) (seen s1)).
-    { subst s1. destruct tn; [apply incl_refl|apply add_seen_incl]. }
-    assert (N01 : forall p, In p (seen s1) -> ~ In p (seen s) -> p = tn /\ tn <> []).
-    { subst s1. destruct tn as [|ch tn']; [intros; contradiction|].
-      intros p Hp Hn. apply add_seen_inv in Hp as [->|Hp]; [split; [auto|discriminate]|contradiction]. }
+    set (s1 := s) in *.
+    assert (M01 : incl (seen s) (seen s1)) by apply incl_refl.
+    assert (N01 : forall p, In p (seen s1) -> ~ In p (seen s) -> False) by (intros; contradiction).
     inv_bind H. rename a into ex. rename Ha into Hex.
     destruct (cur_set c s1 _) as [c2 s2] eqn:Ecs.
     assert (E12 : seen s2 = seen s1).
@@ -270,7 +267,7 @@ Section Cover.
           -- eapply exprs_cov; eauto.
           -- unfold part_ok. destruct (get pname); auto. right. apply Hs. apply mem_str_In; auto.
         * rewrite E12; auto.
-        * intros p Hp Hn. left. rewrite E12 in Hp. apply N01; auto.
+        * intros p Hp Hn. left. rewrite E12 in Hp. eapply N01; eauto.
       + destruct (match kind with Isolated => _ | _ => _ end) as [pc s3] eqn:Ek.
         assert (E23 : seen s3 = seen s2).
         { destruct kind; inversion Ek; subst; reflexivity. }
@@ -290,7 +287,7 @@ Section Cover.
           split; auto. split; [eapply incl_tran; [apply add_seen_incl|eauto]|].
           intros p Hp Hn. destruct (in_str_dec p (seen (add_seen pname s0))) as [Hi|Hi].
           - apply add_seen_inv in Hi as [->|Hi]; [auto|contradiction].
-          - destruct (Ne p Hp Hi) as [[-> _]|]; auto. }
+          - destruct (Ne p Hp Hi) as [[]|]; auto. }
         destruct (fold_visit_cov _ _ _ Hv _ _ _ _ _ _ Ha0 Hcc Hs) as (Fc & Mc & Nc).
         rewrite (n_children_partial _ _ _ _ _ Eps) in Ha. unfold load in Ha.
         destruct (get pname) as [pn|] eqn:Eg; [|discriminate]. inversion Ha; subst pn; clear Ha.
@@ -312,7 +309,7 @@ Section Cover.
         * rewrite E45. eapply incl_tran; [exact M01|]. rewrite <- E12, <- E23. exact Mc.
         * intros p Hp Hn. rewrite E45 in Hp.
           destruct (in_str_dec p (seen s3)) as [Hi|Hi].
-          -- left. rewrite E23, E12 in Hi. apply N01; auto.
+          -- left. rewrite E23, E12 in Hi. eapply N01; eauto.
           -- destruct (Nc p Hp Hi) as [->|]; auto.
     - destruct (cur_set c2 s2 _) as [c3 s3] eqn:Ecs3.
       assert (E23 : seen s3 = seen s2).
@@ -338,7 +335,7 @@ Section Cover.
       + rewrite E45. eapply incl_tran; [exact M01|]. rewrite <- E12, <- E23. exact Mc.
       + intros p Hp Hn. rewrite E45 in Hp.
         destruct (in_str_dec p (seen s3)) as [Hi|Hi].
-        * left. rewrite E23, E12 in Hi. apply N01; auto.
+        * left. rewrite E23, E12 in Hi. eapply N01; eauto.
         * apply Nc; auto.
   Qed.
 End Cover.
@@ -357,9 +354,11 @@ Proof.
   destruct (fold_visit_cov get CF (seen sF) _ _ _ (visit_cov get CF (seen sF) fuel name)
               _ _ _ _ _ _ Ha (incl_refl _) (incl_refl _)) as (F & _ & N).
   split; auto. intros p Hp.
-  destruct (N p Hp) as [[-> Hne]|]; auto.
-  destruct Hn as [->|Hg]; [congruence|].
-  intros nodes' Hn'. rewrite Hg in Hn'. inversion Hn'; subst; auto.
+  destruct (in_str_dec p (seen (init_vstate name))) as [Hi|Hi].
+  - unfold init_vstate in Hi. simpl in Hi. destruct name as [|ch nm]; [contradiction|].
+    destruct Hi as [<-|[]]. destruct Hn as [Hn|Hg]; [discriminate|].
+    intros nodes' Hn'. rewrite Hg in Hn'. inversion Hn'; subst; auto.
+  - destruct (N p Hp Hi) as [[]|]; auto.
 Qed.
 
 Section Sound.
@@ -1114,6 +1113,15 @@ Section Sound.
       destruct b; [apply Hrn; simpl; auto|exact Hunit].
     - eapply sound_bind; [apply IHe; eapply NCov_exprs; eauto; simpl; auto|]. intros b _.
       destruct b; [apply Hrn; simpl; auto|exact Hunit].
+    - (* NTablerow *)
+      apply sound_seq; [apply Hev; simpl; auto|].
+      eapply sound_bind; [apply sound_pop|]. intros k _.
+      apply sound_seq.
+      { destruct loop; try exact Hunit. apply sound_forM. intros c Hc. eapply sound_ign. apply IHe.
+        eapply ecov_in_children; [eapply NCov_exprs; [exact HN|simpl; auto]|].
+        simpl. right. apply in_or_app; right. apply in_or_app; right. exact Hc. }
+      apply sound_seq; [upd_ok|]. apply sound_seq; [|upd_ok].
+      apply sound_repeatM. apply Hrn; simpl; auto.
   Qed.
 
   Lemma interp_sound : forall fuel,
@@ -1310,9 +1318,8 @@ Section Globals.
     Reach tn n -> scopes_ok c s -> scopes_ok c' s' /\ GP cs.
   Proof.
     induction fuel as [|f IH]; intros n tn c s c' s' cs H HR Hs; simpl in H; [discriminate|].
-    set (s1 := match tn with [] => s | _ => add_seen tn s end) in *.
-    assert (Hs1 : scopes_ok c s1).
-    { subst s1. destruct tn; auto. unfold add_seen. destruct (mem_str _ _); auto. }
+    set (s1 := s) in *.
+    assert (Hs1 : scopes_ok c s1) by exact Hs.
     inv_bind H. rename a into ex. rename Ha into Hex.
     assert (Gex : GP ex).
     { eapply mapM_app_GP; [exact Hex|]. intros e o He Ho. inv_bind Ho. inv_bind Ho.
@@ -1396,7 +1403,7 @@ Section Globals.
   Proof.
     unfold analyze_contribs. intro H. inv_bind H. destruct a as [[c s] cs]. inversion H; subst; clear H.
     destruct (fold_visit_GP (fun x c s => visit (n_children get) true fuel x name c s) nodes) with
-      (c := @None (list (list str))) (s := init_vstate) (c' := c) (s' := sF) (k := CF) as (_ & G); auto.
+      (c := @None (list (list str))) (s := init_vstate name) (c' := c) (s' := sF) (k := CF) as (_ & G); auto.
     - intros x c0 s0 c0' s0' k0 Hx Hv Hs0. eapply visit_GP; eauto. apply R_main; auto.
     - split; simpl; auto. intros x Hx. unfold in_scope in Hx. simpl in Hx. discriminate.
   Qed.
